@@ -3,7 +3,10 @@
    _write_field / SimpleRequirement._safe_str.
    R model: the pkgconf 1.8.1 reader of one .pc field: pkgconf_fgetline (comments, backslash),
    pkgconf_tuple_parse (${name} substitution), pkgconf_argv_split, and the empty-argument
-   filter of pkgconf_fragment_add. *)
+   filter of pkgconf_fragment_add.  NOT modelled: the merging of repeated fragments in
+   pkgconf_fragment_copy (a second -I/-L of one directory is dropped, of other typed fragments the
+   earlier occurrence): the model describes the reading of lists whose arguments are pairwise
+   different, which is the domain on which it is validated against the real tool. *)
 From BFG Require Import Base.Chars Shell.PosixQuote Misc.Versions.
 From Coq Require Import String.
 Local Open Scope N_scope.
